@@ -118,6 +118,12 @@ class Models:
 
     def binop(self, eng, op, a, b, st, node):
         num = (INT, REAL, BOOL)
+        # str (+|-|/) number and number (+|-|/) str are TypeErrors in Python (e.g. a parameter read with get() instead of
+        # get_numeric() and then used in arithmetic)
+        if isinstance(a, V) and isinstance(b, V) and isinstance(op, (ast.Add, ast.Sub, ast.Div, ast.FloorDiv)) and (
+                (a.kind == STR and b.kind in (INT, REAL)) or (b.kind == STR and a.kind in (INT, REAL))):
+            eng.raise_exc(st, "TypeError", node)
+            return
         if isinstance(a, V) and isinstance(b, V) and a.kind in num and b.kind in num and not (
                 a.kind == BOOL and b.kind == BOOL and isinstance(op, (ast.BitOr, ast.BitAnd))):
             k, ta, tb = self.num_pair(a, b)
@@ -1023,6 +1029,9 @@ class Models:
             # a plain dict of string keys updated from a parameter object: from here on it is a parameter mapping itself
             h = eng.schema_lookup("Params", "methods", "update")
             newp = eng.new_object(st, "Params", "dictparams")
+            from contracts.schema import P_HAS, P_VAL
+            eng.write_field(st, newp, "Params", "p_has", P_HAS, V(P_HAS, z3.K(z3.StringSort(), z3.BoolVal(False))))
+            eng.write_field(st, newp, "Params", "p_val", P_VAL, V(P_VAL, z3.K(z3.StringSort(), z3.StringVal(""))))
             for st1, _ in h(eng, st, newp, [d], {}, node):
                 for st2, _ in h(eng, st1, newp, [o], {}, node):
                     for st3 in self.write_back(eng, node, newp, st2):
